@@ -208,6 +208,14 @@ class GState:
         V[np.ix_(old, old)] = self.V
         self.n, self.mu, self.V = n2, mu, V
 
+    def remove_modes(self, positions):
+        """Trace out the modes at the given positions; the remaining modes keep their order."""
+        keep = [m for m in range(self.n) if m not in set(positions)]
+        ix = self.idx(keep)
+        self.mu = self.mu[ix].copy()
+        self.V = self.V[np.ix_(ix, ix)].copy()
+        self.n = len(keep)
+
     def apply_sd(self, S, d, modes):
         ix = self.idx(modes)
         self.V[ix, :] = S @ self.V[ix, :]
@@ -350,6 +358,31 @@ def apply_op(g, name, p, modes, dagger=False, hbar=2.0):
         g.prepare(modes, r, V)
         return True
     return False
+
+
+class Labelled:
+    """GState whose modes carry subsystem labels: New appends fresh vacuum modes under new labels, Del traces labels out,
+    every other command is applied at the current positions of its labels (the simulators return the live modes in
+    label order, so positions here are positions there)."""
+
+    def __init__(self, n):
+        self.g = GState(n)
+        self.labels = list(range(n))
+
+    def pos(self, modes):
+        return [self.labels.index(m) for m in modes]
+
+    def apply(self, name, p, modes, dagger=False, hbar=2.0):
+        """Returns True when handled."""
+        if name in ("New", "_New_modes"):
+            self.g.add_modes(len(modes))
+            self.labels += list(modes)
+            return True
+        if name in ("Del", "_Delete"):
+            self.g.remove_modes(self.pos(modes))
+            self.labels = [x for x in self.labels if x not in set(modes)]
+            return True
+        return apply_op(self.g, name, p, self.pos(modes), dagger, hbar)
 
 
 def net_action(cmds, nmodes, hbar=2.0):
